@@ -30,6 +30,7 @@ class Interp:
         self.verifying = None                # qualname currently verified (its body is executed, not its contract)
         self.inline = set()                  # qualnames forced inline
         self.events = []                     # notes (assumed library facts used, etc.)
+        self.lib_log = set()
         self.call_hook = None
     # ------------------------------------------------------------------ path state
     def reset_path(self, decisions=None):
@@ -469,7 +470,9 @@ class Interp:
         return self.call(f, args, kw)
     # ------------------------------------------------------------------ calls
     def call(self, f, args, kw):
-        if isinstance(f, Builtin): return f.fn(*args, **kw)
+        if isinstance(f, Builtin):
+            if f.name and "." in f.name: self.lib_log.add(f.name)        # which assumed library contracts this verification actually used
+            return f.fn(*args, **kw)
         if isinstance(f, Func):
             q = f.qualname
             c = self.contracts.get(q)
